@@ -3,7 +3,7 @@
 import glob, json
 for f in sorted(glob.glob('/verif/evidence/*.json')):
     e = json.load(open(f)); c = e['coverage']
-    flag = "OK " if (not c.get('inconclusive') and c['obligations'] <= c['discharged'] + len(c.get('known_findings', [])) and e.get('violations', 0) == 0) else "BAD"
+    flag = "OK " if (not c.get('inconclusive') and c['obligations'] == c['discharged'] and e.get('violations', 0) == 0) else "BAD"
     print(flag, e['property_id'], e['tier'], "wall=%ss" % e['wall_s'], "obl=%d/%d" % (c['discharged'], c['obligations']),
           "harnesses=%d/%d" % (c['harnesses_proved'], c['harnesses']), "known=%d" % len(c.get('known_findings', [])),
           "inconclusive=%d" % len(c.get('inconclusive', [])))
